@@ -1,57 +1,11 @@
 import TwistedModel.App.ClientService
+import TwistedProps.C58.Defs
+import TwistedProps.C58.Handler
 /-!
-C58, part 2 — the reachability invariant of the service for histories whose `prepareConnection` hook (if any)
-always returns normally, and what every single event does to a state satisfying it.
+C58, part 2c — what every single event does to a state satisfying the invariant `Good`.
 -/
 namespace TwistedProps.C58
 open Twisted.App.ClientService
-
-/-- the event does not involve a `prepareConnection` hook that raises or returns a Deferred -/
-def hookFree : Ev → Bool
-  | .csucc .raise | .csucc .defer => false
-  | _ => true
-
-/-- What the environment looks like in each machine state: the real content of "no event is rejected".
-    E.g. in `Connecting` the endpoint's Deferred is pending and NO connection is open — which is exactly what
-    fails while a `prepareConnection` Deferred is pending (see the counterexamples). -/
-def Good (s : St) : Prop :=
-  match s.ms with
-  | .init => s.running = false ∧ s.att = .none ∧ s.conns = [] ∧ s.timer = none ∧ s.stopWaiters = [] ∧ s.nstop = 0
-  | .connecting => s.running = true ∧ s.att = .pending ∧ s.conns = [] ∧ s.timer = none ∧ s.stopWaiters = []
-  | .waiting => s.running = true ∧ s.att = .none ∧ s.conns = [] ∧ s.timer.isSome = true ∧ s.stopWaiters = []
-  | .connected => s.running = true ∧ s.att = .none ∧ s.conns = [⟨s.cur, false⟩] ∧ s.timer = none ∧ s.stopWaiters = [] ∧ s.waiters = []
-  | .disconnecting => s.running = false ∧ s.att = .none ∧ s.conns = [⟨s.cur, true⟩] ∧ s.timer = none ∧ s.stopWaiters ≠ [] ∧ 0 < s.nstop
-  | .restarting => s.running = true ∧ s.att = .none ∧ s.conns = [⟨s.cur, true⟩] ∧ s.timer = none ∧ s.stopWaiters ≠ [] ∧ 0 < s.nstop
-  | .stopped => s.running = false ∧ s.att = .none ∧ s.conns = [] ∧ s.timer = none ∧ s.stopWaiters = [] ∧ s.waiters = [] ∧ 0 < s.nstop
-
-/-! ### the environment's own view of an event (no machine state involved) -/
-
-/-- a connection is established and accepted -/
-def isSuccess (s : St) : Ev → Bool
-  | .csucc .plain | .csucc .ok => decide (s.att = .pending)
-  | .prepok => match s.att with | .preparing _ => true | _ => false
-  | _ => false
-
-/-- the attempt in progress fails (refused, or rejected by the hook) -/
-def attemptFails (s : St) : Ev → Bool
-  | .cfail | .csucc .raise => decide (s.att = .pending)
-  | .prepfail => match s.att with | .preparing _ => true | _ => false
-  | _ => false
-
-/-- an open connection that nobody asked to close is lost -/
-def connectionDrops (s : St) : Ev → Bool
-  | .drop i => match s.conns[i]? with | some c => !c.closing | none => false
-  | _ => false
-
-/-- number of consecutive failures after event `e` in state `s`, given `k` before it -/
-def failures (k : Nat) (s : St) (e : Ev) : Nat :=
-  if isSuccess s e then 0 else if attemptFails s e || connectionDrops s e then k + 1 else k
-
-/-- number of consecutive failures (failed attempts and unsolicited drops since the last established connection)
-    at the end of history `h` from state `s`, seen from the environment -/
-def consecutiveFailures (pol : Nat → Nat) : St → Nat → List Ev → Nat
-  | _, k, [] => k
-  | s, k, e :: es => consecutiveFailures pol (step pol s e).1 (failures k s e) es
 
 local macro "crunch" : tactic => `(tactic|
   simp_all [step, Good, mStart, mStop, mWhen, outcome, connectionMade, connectionFailed, clientDisconnected, reconnect,
@@ -67,7 +21,12 @@ theorem good_step (pol : Nat → Nat) (s : St) (e : Ev) (hg : Good s) (he : hook
     ∧ (isSuccess s e = true → s'.waiters = [] ∧ ∃ c, s'.fired = s.fired ++ s.waiters.map fun w => (w.1, WRes.conn c))
     ∧ (attemptFails s e = true → s' = failedWhenConnecting (waitForRetry pol { s with ms := .waiting, att := .none }))
     ∧ (s'.stopFired ≠ s.stopFired → s'.conns = [])
-    ∧ (s.att = .none → s'.att = .pending → e = .start ∨ (∃ i, e = .drop i) ∨ ∃ t r, e = .adv t ∧ s.timer = some r ∧ r ≤ t) := by
+    ∧ (s.att = .none → s'.att = .pending → e = .start ∨ (∃ i, e = .drop i) ∨ (∃ t r, e = .adv t ∧ s.timer = some r ∧ r ≤ t)
+        ∨ ∃ i acts r, e = .dropH i acts r) := by
+  by_cases hd : ∃ i acts r, e = .dropH i acts r
+  · obtain ⟨i, acts, r, rfl⟩ := hd
+    obtain ⟨g1, g2, g3, g4, g5, _⟩ := good_step_dropH pol s i acts r hg
+    exact ⟨g1, g2, g3, g4, by simp [isSuccess], by simp [attemptFails], g5, fun _ _ => by simp⟩
   rcases s with ⟨ms, running, cur, att, conns, nconn, timer, failed, waiters, nwait, fired, stopWaiters, nstop, stopFired⟩
   cases e with
   | csucc p =>
@@ -78,6 +37,30 @@ theorem good_step (pol : Nat → Nat) (s : St) (e : Ev) (hg : Good s) (he : hook
     | none => cases ms <;> crunch
     | some r => by_cases h : r ≤ t <;> simp only [step, h, ↓reduceIte] <;> cases ms <;> crunch
   | drop i => cases i <;> cases ms <;> cases timer <;> crunch
+  | dropH i acts r => exact absurd ⟨i, acts, r, rfl⟩ hd
   | _ => cases ms <;> cases timer <;> crunch
+
+/-- a plain `Protocol`'s handler does nothing -/
+theorem drop_eq_dropH (pol : Nat → Nat) (s : St) (i : Nat) : step pol s (.drop i) = step pol s (.dropH i [] false) := by
+  have h : ∀ x : St × Bool, outcome x = (x.1, if !x.2 then .rejected else if false then .raised else .ok) := by
+    rintro ⟨a, b⟩; cases b <;> rfl
+  simp only [step, proxyConnectionLost, List.foldl_nil]
+  split
+  · exact h _
+  · rfl
+
+/-- The loss of a connection that nobody asked to close — with ANY application handler (plain, re-entrant, raising) —
+    is noticed at once: the machine is `Waiting`, the retry is scheduled after the policy's delay for the new
+    failure count, and nothing is left open. -/
+theorem good_step_drops (pol : Nat → Nat) (s : St) (e : Ev) (hg : Good s) (hd : connectionDrops s e = true) :
+    let s' := (step pol s e).1
+    s'.ms = .waiting ∧ s'.timer = some (pol s'.failed) ∧ s'.conns = [] ∧ s'.att = .none := by
+  cases e with
+  | dropH i acts r => exact (good_step_dropH pol s i acts r hg).2.2.2.2.2 hd
+  | drop i =>
+    rw [drop_eq_dropH]
+    refine (good_step_dropH pol s i [] false hg).2.2.2.2.2 ?_
+    simpa [connectionDrops] using hd
+  | _ => simp [connectionDrops] at hd
 
 end TwistedProps.C58
